@@ -204,6 +204,41 @@ def run(rep, tier, rng):
             if nfail == 1:
                 rep.violation({"kind": "oracle", "what": msg, "case_kind": "read", "case": c, "calls": wl["calls"],
                                "specs": wl["specs"], "shp_cut": pl, "shx_cut": ql})
+    # ---- a shape with more than 1024 points in one part (beyond the reader's pre-sizing cap) followed by a small one:
+    # operation-level cuts; the model reads them too in the thorough tier (its reader is quadratic in the record size)
+    for code_l, nparts_l, npts_l in ((8, 1, 1030), (3, 1, 1100)) + (((13, 2, 1030), (28, 1, 2050)) if tier == "thorough" else ()):
+        wl = {"code": code_l, "specs": [shapes.grid_ctor(rng, code_l, nparts_l, npts_l, "small"), shapes.grid_ctor(rng, code_l, 1, 2, "small")],
+              "calls": [("w", 0), ("f",), ("w", 1)]}
+        P.run_ctor_stage(rep, dev, [wl], "c11long", model=(tier == "thorough"))
+        P.run_write_stage(rep, dev, [wl], "c11long", model=(tier == "thorough"))
+        w = wl["written"]
+        if "special" in w:
+            continue
+        lexp = [P.on_read(wl["values"][i]) for i in (0, 1)]
+        pc = cuts_of(w["shp"]["log"], 0)
+        pc = [c for i, c in enumerate(pc) if "+" not in c[0] and (i % 41 == 0 or int(c[0][2:]) > len(w["shp"]["log"]) - 70)]
+        lcases, lmeta = [], []
+        for (pl, pbuf, pfl) in pc:
+            lcases.append(C.read_case(-1, pbuf, None, [("it", -1)]))
+            lmeta.append(pl)
+            lcases.append(C.read_case(code_l, pbuf, w["shx"]["buf"], [("it", -1)]))
+            lmeta.append(pl + " (complete index)")
+        limpl = stages.correspondence(rep, "crash_long", dev, lcases, "crash(shape of more than 1024 points)", model=(tier == "thorough"))
+        for c, pl, r in zip(lcases, lmeta, limpl):
+            rd = C.parse_read(r, [("it", -1)])
+            msg = "panic or dead process on a crash state" if (r in ([2], [-2], [-5]) or rd.get("panic")) else None
+            if not msg and "ops" in rd:
+                for i, it in enumerate(rd["ops"][0]["items"]):
+                    if it[0] != "ok":
+                        break
+                    if i >= len(lexp) or not P.same_modulo(lexp[i][0], lexp[i][1], it[1]):
+                        msg = ("item %d read from the crash state %s of a file whose first shape has %d points in one part is not the %d-th "
+                               "written shape (%d values read, %d written)" % (i, pl, npts_l, i, len(it[1]), len(lexp[i][0]) if i < len(lexp) else 0))
+                        break
+            if msg:
+                nfail += 1
+                rep.violation({"kind": "oracle", "what": msg, "case_kind": "read", "shp_cut": pl, "type": code_l})
+                break
     # ---- crash states opened by path: which index file the reader picks up (dotted names, sibling shapefiles, stale
     # index files), against the directory model (Model/Paths.v; lib/pathmodel.py)
     import os
